@@ -179,7 +179,7 @@ def run(tier):
         configs = [("b1", 2, "B_1", (1, 0, 1)), ("b2", 2, "B_2", (1, 0, 1)), ("wrr", 3, "C_WRR", (0, 0, 0)),
                    ("www", 3, "C_WWW", (1, 0, 0)), ("wwr1", 3, "C_WWR", (1, 0, 1)),
                    # the two biggest ones run under a time cap (TLC reports what it explored)
-                   ("e1", 3, "E_1", (0, 0, 0), 150), ("rwrt", 4, "G_RWRT", (0, 0, 0), 150)]
+                   ("e1", 3, "E_1", (0, 0, 0), 100), ("rwrt", 4, "G_RWRT", (0, 0, 0), 100)]
         configs_if_differs = [("wr", 2, "A_WR", (1, 1, 1)), ("ww", 2, "A_WW", (1, 1, 1))]
         specs = [
             ("dfs_a_wr", {"progs": PROGS["A_WR"], "preempt": 4, "max_runs": 5000, "spur": 1, "eintr": 1, "weak": 1, "graph": "wr"}),
